@@ -64,21 +64,27 @@ CPUB_EXEMPT = {
     "reading.collect_overall_iterations": "docstring: returns 'the input dictionary with an added overall key' "
                                           "(helper of iterations(), which passes a dict it built itself)",
     "reading.saveprint": "writes to the file object it is given (that is its purpose)",
+    "time.process_single_timestep": "docstring of its parameter `data`: 'The function will add calculated variables "
+                                    "to this dictionary'; it stays `strict` (nothing but argument objects themselves) "
+                                    "and Props/C02Containers.lean proves that `data` is the only one",
 }
-# Save/read functions for which the deep container claim (nothing that existed
-# before the call is structurally modified) is NOT established statically:
-# the analysis cannot separate nested containers built locally from scalars of
-# user origin stored in them.  They keep the array claim and the "argument
-# object itself" lint; the dynamic monitor deep-compares their arguments.
+# Save/read functions for which the deep container claim (nothing that existed before the call is structurally
+# modified) is NOT established statically.  (read_ET_data / read_data / join_chunks used to be listed here; since the
+# translator knows the documented types of keyword entries, the YAML name tables and the element variables of simple
+# local containers they pass the strict check.)
 NONSTRICT = {
-    "reading.read_ET_data": "stores the caller's `it` / `vars` values in its own kwargs dict and nested catalogues; "
-                            "`absorb` taints every live container, so the nested stores into datar / its_missing "
-                            "cannot be separated from the caller's objects",
-    "reading.read_data": "dispatches to read_ET_data",
-    "reading.join_chunks": "regroups the caller's chunk arrays into nested dicts of its own; a subscript of those "
-                           "cannot be told from the caller's dict",
     "reading.collect_overall_iterations": "updates its argument in place by design (see CPUB_EXEMPT)",
 }
+# Modules whose functions carry the container-level claim (`strict`, and `cpub` when public).
+CONTAINER_CLAIM_MODULES = ("reading", "time")
+# Functions named in Props/C02Containers.lean (a constant `fid_<module>_<name>` is generated for each).
+NAMED_FUNCTIONS = [
+    "reading.read_data", "reading.read_ET_data", "reading.read_aurel_data", "reading.save_data",
+    "reading.join_chunks", "reading.read_ET_group_or_var", "reading.read_ET_variables", "reading.read_ET_checkpoints",
+    "reading.transform_vars_tensor_to_scalar", "reading.transform_vars_aurel_to_ET",
+    "reading.transform_vars_ET_to_aurel_groups", "reading.transform_vars_ET_to_aurel",
+    "time.over_time", "time.process_single_timestep",
+]
 # Kinds of sub-expressions the translator cannot infer (what kind of object a nested subscript denotes).
 # (function, source text of the expression) -> kind.  Each entry is a fact about the code as it is now.
 EXPR_KINDS = {
@@ -108,6 +114,22 @@ PARAM_KINDS = {
         ("dict<list<imm>>", "get_content docstring: maps tuples of variable names to lists of file paths"),
     ("reading.read_ET_checkpoints", "var"): ("list<imm>", "docstring: the variables (names) to read"),
 }
+# Assumption A4 (cache abstraction).  `AurelCore.data` IS the cache of the model (`Heap.cache`; `self.data[k] = v` is
+# the IR statement `store`), not a heap object with a version counter.  The two dicts that record, per cache key, when
+# it was last used and how important it is are part of the same abstraction: inserting, overwriting or evicting an
+# entry of these three dicts is not a "container operation on an object that existed before the call" in the sense
+# of C02 (the property is about the arrays held in the cache and about the argument lists / dicts of the save / read /
+# time-series functions).  Side conditions, CHECKED on every run by check_bookkeeping(): the two bookkeeping dicts are
+# created by AurelCore.__init__ (after the user's keyword attributes have been set), only ever hold immutable numbers,
+# and are only ever used as `x.attr[k]`, `x.attr[k] = number`, `del x.attr[k]`, `k in x.attr`, `x.attr.get/items/keys/
+# values()` - so no reference to them can be an argument object of another function or be stored anywhere else.
+BOOKKEEPING_ATTRS = {
+    "last_accessed": "per cache key: value of calculation_count when the entry was last requested (ints)",
+    "var_importance": "per cache key: weight used by cleanup_cache (floats)",
+}
+BOOKKEEPING_CLASS = "core.AurelCore"
+BOOKKEEPING_READ_METHODS = {"get", "items", "keys", "values"}
+
 # Call sites whose callee is supplied by the user (callbacks): assumed not to
 # mutate their arguments; result may alias the arguments.
 CALLBACK_PARAMS = {
@@ -130,10 +152,51 @@ NP_FRESH = {
     "cumsum", "unique", "dot", "matmul", "tensordot", "outer", "cross", "power", "maximum", "minimum", "floor",
     "ceil", "round", "all", "any", "nanmax", "nanmin", "nanmean", "allclose", "isclose", "array_equal", "size",
     "ndim", "errstate", "float32", "float64", "int32", "int64", "complex128", "gradient", "interp", "roll",
-    "flip", "tile", "repeat", "identity", "eye", "trace", "linalg.norm", "linalg.inv", "linalg.det",
+    "tile", "repeat", "identity", "eye", "trace", "linalg.norm", "linalg.inv", "linalg.det",
+    "partition", "argpartition", "argsort", "quantile", "nanpercentile", "nanquantile", "nanmedian", "nansum",
+    "nanstd", "nanvar", "add", "subtract", "multiply", "divide", "true_divide", "negative", "square", "clip",
+    "take", "average", "count_nonzero", "log10", "log2", "tanh", "arcsinh", "arccosh", "arctanh", "hypot",
+    "fabs", "mod", "remainder", "floor_divide", "reciprocal", "exp2", "expm1", "log1p", "cbrt", "deg2rad", "rad2deg",
+    "greater", "greater_equal", "less", "less_equal", "equal", "not_equal", "logical_xor", "isinf", "signbit",
 }
+# (np.flip returns a VIEW of its argument: it is in NP_VIEW0, not here.)
+# numpy functions that write into their FIRST argument and return None
+NP_MUT0 = {"copyto", "put", "place", "putmask", "fill_diagonal", "put_along_axis", "random.shuffle"}
+# keyword arguments that let a numpy function work in place on its (first) input
+NP_INPLACE_KW = {"overwrite_input"}
+# ndarray methods of M_FRESH: number of positional arguments BEFORE a positional `out` (more -> refused)
+ARRAY_METHOD_MAXPOS = {"sum": 2, "mean": 2, "std": 2, "var": 2, "prod": 2, "cumsum": 2, "max": 1, "min": 1,
+                       "argmin": 1, "argmax": 1, "round": 1, "dot": 1, "clip": 2, "astype": 1, "repeat": 2,
+                       "flatten": 1, "nonzero": 0, "tolist": 0, "conj": 0, "conjugate": 0}
+_np_sig_cache = {}
+
+
+def np_param_index(name, param):
+    """index at which numpy function `np.<name>` accepts `param` POSITIONALLY (None: keyword-only / absent).
+    ufuncs: every positional argument after the `nin` inputs is an output array."""
+    key = (name, param)
+    if key not in _np_sig_cache:
+        import inspect
+        import numpy
+        f = numpy
+        try:
+            for part in name.split("."):
+                f = getattr(f, part)
+            if isinstance(f, numpy.ufunc):
+                idx = f.nin if param == "out" else None
+            else:
+                ps = list(inspect.signature(f).parameters.values())
+                idx = next((i for i, q in enumerate(ps) if q.name == param
+                            and q.kind in (q.POSITIONAL_ONLY, q.POSITIONAL_OR_KEYWORD)), None)
+                if any(q.kind == q.VAR_POSITIONAL for q in ps[:idx if idx is not None else len(ps)]):
+                    idx = None
+        except (AttributeError, ValueError, TypeError):
+            idx = -1            # cannot be inspected
+        _np_sig_cache[key] = idx
+    return _np_sig_cache[key]
 # result certainly a view of (or identical to) the first argument
-NP_VIEW0 = {"transpose", "reshape", "real", "imag", "asarray", "squeeze", "ravel", "swapaxes", "moveaxis",
+NP_VIEW0 = {"flip", "fliplr", "flipud", "rot90",
+            "transpose", "reshape", "real", "imag", "asarray", "squeeze", "ravel", "swapaxes", "moveaxis",
             "atleast_1d", "atleast_2d", "atleast_3d", "broadcast_to", "diagonal", "expand_dims", "asanyarray",
             "ascontiguousarray"}
 NP_CONST = {"pi", "nan", "inf", "e", "newaxis", "float32", "float64", "int32", "int64", "integer", "ndarray",
@@ -161,14 +224,15 @@ M_IMM = {  # result immutable scalar
     "isnumeric", "any", "all", "group", "groups",
 }
 M_FRESH = {  # result a new object holding no reference to the receiver's mutable parts
-    "astype", "flatten", "sum", "min", "max", "mean", "std", "var", "conj", "conjugate", "round", "argmin",
+    "astype", "flatten", "sum", "min", "max", "mean", "std", "var", "round", "argmin",
     "argmax", "cumsum", "prod", "dot", "nonzero", "split", "rsplit", "splitlines", "partition_str", "read",
     "readlines", "readline", "encode", "decode", "tobytes", "tolist", "clip", "repeat",
     # re.Pattern methods: the match object / list of strings holds nothing mutable
     "match", "search", "fullmatch", "findall",
 }
 M_COPY = {"copy"}  # new object; for containers it references the same elements
-M_ALIAS = {"reshape", "transpose", "view", "squeeze", "ravel", "swapaxes"}  # numpy views of the receiver
+# numpy views of the receiver (`x.conj()` of a real array IS x)
+M_ALIAS = {"reshape", "transpose", "view", "squeeze", "ravel", "swapaxes", "conj", "conjugate", "diagonal"}
 M_VIEW = {  # may return (part of) the receiver or an argument
     "keys", "values", "items", "get", "most_common", "__getitem__", "require_group",
 }
@@ -212,6 +276,12 @@ def kmk(base, elem):
     return "%s<%s>" % (base, elem or "")
 
 
+def holds_no_refs(k):
+    """a container kind all of whose elements are immutable scalars (or that has no element yet):
+    extending another container by its elements stores no reference"""
+    return kbase(k) in CONTAINER_BASES and isinstance(k, str) and "<" in k and kelem(k) in (K_IMM, None)
+
+
 def kjoin(a, b):
     if a is None:
         return b
@@ -233,6 +303,8 @@ def kjoin(a, b):
 # ------------------------------------------------------------ program model
 class FuncInfo:
     def __init__(self, qname, node, module, cls, lineno):
+        if isinstance(node, ast.FunctionDef) and any(isinstance(x, ast.Delete) for x in ast.walk(node)):
+            node = rename_after_del(node)
         self.qname, self.node, self.module, self.cls, self.lineno = qname, node, module, cls, lineno
         a = node.args
         pos = [x.arg for x in a.posonlyargs + a.args]
@@ -262,6 +334,7 @@ class World:
         self.functables = {}   # (module, name) -> set of qnames / "np" entries
         self.attr_kinds = {}   # (class, attr) -> kind
         self.attr_funcs = {}   # (class, attr) -> set of function qnames
+        self.global_kinds = {}  # (module, global name) -> kind read off the data file it is loaded from
         self.keys = {}         # key name -> id
         self.key_names = []
         self.assumptions = []
@@ -274,10 +347,16 @@ class World:
         return self.keys[name]
 
 
-def load_world():
+def load_world(sources=None):
+    """sources: [(module name, source text)]; default: the six modules of aurel"""
     w = World()
-    for mod, rel in MODULES:
-        tree = ast.parse(fw.src_text(rel))
+    if sources is None:
+        sources = [(mod, fw.src_text(rel)) for mod, rel in MODULES]
+    for mod in list(AUREL_MODULE_NAMES.values()) + [m for m, _ in MODULES]:
+        w.modfuncs.setdefault(mod, {})
+        w.globals_.setdefault(mod, set())
+    for mod, text in sources:
+        tree = ast.parse(text)
         w.modfuncs[mod] = {}
         w.globals_[mod] = set()
         for n in tree.body:
@@ -301,6 +380,13 @@ def load_world():
                     for nm in ast.walk(t):
                         if isinstance(nm, ast.Name):
                             w.globals_[mod].add(nm.id)
+                # tables loaded from data/var_mappings.yml: `name = _varmaps['key']`
+                if (isinstance(n, ast.Assign) and len(n.targets) == 1 and isinstance(n.targets[0], ast.Name)
+                        and isinstance(n.value, ast.Subscript) and isinstance(n.value.value, ast.Name)
+                        and n.value.value.id == YAML_TABLES[1] and isinstance(n.value.slice, ast.Constant)):
+                    k = yaml_table_kind(n.value.slice.value)
+                    if k:
+                        w.global_kinds[(mod, n.targets[0].id)] = k
                 # global dict of functions (time.est_functions)
                 if (isinstance(n, ast.Assign) and len(n.targets) == 1 and isinstance(n.targets[0], ast.Name)
                         and isinstance(n.value, ast.Dict) and n.value.values
@@ -316,13 +402,44 @@ def load_world():
                             w.funcs[q] = FuncInfo(q, fn, mod, None, v.lineno)
                             entries.add(q)
                         else:
-                            entries.add("ext")
+                            pth = dotted(v)
+                            if pth and pth[0] == "np" and ".".join(pth[1:]) in NP_FRESH:
+                                entries.add("ext")       # allocates its result, writes nowhere (no out= given)
+                            elif pth and len(pth) == 1 and pth[0] in w.modfuncs[mod]:
+                                entries.add(w.modfuncs[mod][pth[0]])
+                            else:
+                                raise TranslationError("%s.%s[%r]: entry %s of a function table is not a numpy function "
+                                                       "known to be pure" % (mod, n.targets[0].id,
+                                                                             getattr(k, "value", "?"), ast.unparse(v)))
                     w.functables[(mod, n.targets[0].id)] = entries
             elif isinstance(n, (ast.If, ast.With, ast.Try, ast.For)):
                 for nm in ast.walk(n):
                     if isinstance(nm, ast.Name) and isinstance(nm.ctx, ast.Store):
                         w.globals_[mod].add(nm.id)
     return w
+
+
+# ------------------------------------------------------------- data tables
+YAML_TABLES = ("data/var_mappings.yml", "_varmaps")   # reading.py: `_varmaps = yaml.safe_load(<that file>)`
+_yaml_cache = {}
+
+
+def yaml_table_kind(key):
+    """kind of `_varmaps[key]`, read off the data file itself (a fact about the file as it is now):
+    a mapping of names to names -> dict<imm>, a mapping of names to lists of names -> dict<list<imm>>"""
+    if "tables" not in _yaml_cache:
+        import yaml
+        with open(os.path.join(fw.SRC, YAML_TABLES[0])) as f:
+            _yaml_cache["tables"] = yaml.safe_load(f)
+    t = _yaml_cache["tables"].get(key)
+    scalar = lambda x: isinstance(x, (str, int, float, bool)) or x is None
+    if not isinstance(t, dict) or not all(scalar(k) for k in t):
+        return None
+    if all(scalar(v) for v in t.values()):
+        return kmk(K_DICT, K_IMM)
+    if all(isinstance(v, list) and all(scalar(x) for x in v) for v in t.values()):
+        return kmk(K_DICT, kmk(K_LIST, K_IMM))
+    return None
 
 
 # ------------------------------------------------------------- small helpers
@@ -389,6 +506,184 @@ PY_BUILTIN_NAMES = {"True", "False", "None", "ValueError", "TypeError", "KeyErro
 AUREL_MODULE_NAMES = {"maths": "maths", "numerical": "numerical", "core": "core"}
 
 
+# ----------------------------------------------------- element variables of simple local containers
+# A local name X is *simple* when the container it is bound to can only be reached through the name X itself:
+#   * X is not a parameter, and every binding of X is `X = <new container>`: a list / dict display, a list / dict
+#     comprehension, `list()` / `dict()`, or a shallow copy `sorted(Y)`, `list(Y)`, `Y.copy()`, `Y[a:b]` of a local Y;
+#   * every other occurrence of X is one of: `X[i]` (load, store, del, augmented), `X.m(...)` with m a list / dict
+#     method, `for .. in X`, an argument of a builtin / numpy / external function (which store nothing into their
+#     arguments), `*X` / `**X`, `return X`, a comparison, a truth test, `Y += X`, an f-string, `del X`.
+#   So X is never copied to another name, stored into another container, captured by a lambda or passed to a
+#   translated function: every element X ever holds was put there by a statement of this function that names X.
+# For such a name the IR gets a second variable X' ("any element of X"): every statement that stores an element
+# also executes `ite (alias X' v) skip` (the oracle decides which of the elements X' stands for), and reading an
+# element (`X[i]`, iteration, .get/.pop/.setdefault/.values()/.items()) is `alias t X'` instead of `view t [X]`
+# (which could also be X itself or anything X reaches).  For every single element read of a real execution there is
+# an oracle under which X' holds exactly the object that was read, so a mutation of a pre-existing object through an
+# element of X is reproduced by some IR execution - which is what the soundness theorem quantifies over.
+SIMPLE_METHODS = {"keys", "values", "items", "get", "pop", "setdefault", "append", "extend", "insert", "update",
+                  "remove", "copy", "index", "count", "sort", "reverse", "clear", "popitem"}
+SIMPLE_PURE_CALLEES = {"len", "list", "sorted", "print", "str", "enumerate", "zip", "reversed", "tuple", "set",
+                       "isinstance", "any", "all", "sum", "min", "max", "repr", "bool", "iter", "dict", "type"}
+
+
+def _parents(root):
+    par = {}
+    for n in ast.walk(root):
+        for c in ast.iter_child_nodes(n):
+            par[c] = n
+    return par
+
+
+def _new_container_form(v, locals_):
+    if isinstance(v, (ast.Dict, ast.List, ast.ListComp, ast.DictComp)):
+        return True
+    if isinstance(v, ast.Call) and isinstance(v.func, ast.Name) and v.func.id in ("list", "dict") and not v.args \
+            and not v.keywords and v.func.id not in locals_:
+        return True
+    if (isinstance(v, ast.Call) and isinstance(v.func, ast.Name) and v.func.id in ("sorted", "list")
+            and v.func.id not in locals_ and len(v.args) == 1 and isinstance(v.args[0], ast.Name)
+            and all(kw.arg in ("key", "reverse") for kw in v.keywords)):
+        return True
+    if (isinstance(v, ast.Call) and isinstance(v.func, ast.Attribute) and v.func.attr == "copy" and not v.args
+            and isinstance(v.func.value, ast.Name)):
+        return True
+    if isinstance(v, ast.Subscript) and isinstance(v.slice, ast.Slice) and isinstance(v.value, ast.Name):
+        return True
+    return False
+
+
+def simple_locals(fi, locals_):
+    par = _parents(fi.node)
+    bad, seen, bound = set(), set(), set()
+    in_lambda = set()
+    for n in ast.walk(fi.node):
+        if isinstance(n, ast.Lambda):
+            for m in ast.walk(n.body):
+                if isinstance(m, ast.Name):
+                    in_lambda.add(m.id)
+        if isinstance(n, (ast.Global, ast.Nonlocal)):
+            bad.update(n.names)
+        if isinstance(n, ast.ExceptHandler) and n.name:
+            bad.add(n.name)
+
+    def pure_call(call):
+        f = call.func
+        if isinstance(f, ast.Name):
+            return f.id not in locals_ and (f.id in SIMPLE_PURE_CALLEES or f.id in EXTERNAL_FUNCS)
+        p = dotted(f)
+        return bool(p) and p[0] not in locals_ and (p[0] == "np" or p[0] in EXTERNAL_MODULES)
+
+    def truth_test(node, child):
+        if isinstance(node, (ast.If, ast.While, ast.IfExp)) and node.test is child:
+            return True
+        if isinstance(node, ast.UnaryOp) and isinstance(node.op, ast.Not):
+            return True
+        if isinstance(node, ast.BoolOp):
+            return truth_test(par.get(node), node)
+        return False
+
+    for n in ast.walk(fi.node):
+        if not isinstance(n, ast.Name) or n.id not in locals_ or n.id in fi.params:
+            continue
+        x, p = n.id, par.get(n)
+        seen.add(x)
+        if isinstance(n.ctx, ast.Store):
+            if isinstance(p, ast.Assign) and len(p.targets) == 1 and p.targets[0] is n \
+                    and _new_container_form(p.value, locals_):
+                bound.add(x)
+            elif isinstance(p, ast.AugAssign) and p.target is n and isinstance(p.op, ast.Add):
+                pass                                  # list += ...: in-place extension (X is a list, see the forms)
+            else:
+                bad.add(x)
+            continue
+        if isinstance(n.ctx, ast.Del):
+            if not isinstance(p, ast.Delete):
+                bad.add(x)
+            continue
+        ok = False
+        if isinstance(p, ast.Subscript) and p.value is n:
+            ok = True
+        elif isinstance(p, ast.Attribute) and p.value is n:
+            g = par.get(p)
+            ok = isinstance(g, ast.Call) and g.func is p and p.attr in SIMPLE_METHODS
+        elif isinstance(p, ast.Call) and n in p.args:
+            ok = pure_call(p)
+        elif isinstance(p, ast.keyword) and isinstance(par.get(p), ast.Call):
+            ok = p.arg is None or pure_call(par[p])   # **X: the callee receives the entries in a new dict
+        elif isinstance(p, ast.Starred) and isinstance(par.get(p), ast.Call):
+            ok = True                                 # *X: the callee receives the elements in a new tuple
+        elif isinstance(p, ast.Return):
+            ok = True
+        elif isinstance(p, ast.Compare):
+            ok = True
+        elif truth_test(p, n):
+            ok = True
+        elif isinstance(p, (ast.For, ast.comprehension)) and p.iter is n:
+            ok = True
+        elif isinstance(p, ast.AugAssign) and p.value is n and isinstance(p.target, ast.Name):
+            ok = True
+        elif isinstance(p, ast.FormattedValue):
+            ok = True
+        if not ok:
+            bad.add(x)
+    return {x for x in bound if x not in bad and x not in in_lambda}
+
+
+def rename_after_del(fn):
+    """`del P` of a parameter P followed, in the same statement list, by other statements: these can only use P after
+    binding it again, so the rest of the list is translated with a new local `P__2` (and `P = P__2` at its end unless
+    it ends in return / raise).  Lets the translator see that the dict over_time builds under the name of its
+    parameter `data` is a new object.  Returns a copy of fn."""
+    import copy
+    fn = copy.deepcopy(fn)
+    a = fn.args
+    params = {x.arg for x in a.posonlyargs + a.args + a.kwonlyargs} | ({a.vararg.arg} if a.vararg else set()) | (
+        {a.kwarg.arg} if a.kwarg else set())
+    counter = {}
+
+    class Ren(ast.NodeTransformer):
+        def __init__(self, old, new):
+            self.old, self.new = old, new
+
+        def visit_Name(self, n):
+            if n.id == self.old:
+                return ast.copy_location(ast.Name(id=self.new, ctx=n.ctx), n)
+            return n
+
+    def lists_of(node):
+        for fld in ("body", "orelse", "finalbody"):
+            l = getattr(node, fld, None)
+            if isinstance(l, list) and l and isinstance(l[0], ast.stmt):
+                yield l
+        for h in getattr(node, "handlers", []) or []:
+            yield h.body
+
+    def process(stmts):
+        i = 0
+        while i < len(stmts):
+            st = stmts[i]
+            if isinstance(st, ast.Delete) and i + 1 < len(stmts):
+                for tg in st.targets:
+                    rebound = any(isinstance(m, ast.Name) and m.id == getattr(tg, "id", None)
+                                  and isinstance(m.ctx, ast.Store) for r in stmts[i + 1:] for m in ast.walk(r))
+                    if isinstance(tg, ast.Name) and tg.id in params and rebound:
+                        counter[tg.id] = counter.get(tg.id, 1) + 1
+                        new = "%s__%d" % (tg.id, counter[tg.id])
+                        rest = [Ren(tg.id, new).visit(r) for r in stmts[i + 1:]]
+                        if not isinstance(rest[-1], (ast.Return, ast.Raise)):
+                            back = ast.Assign(targets=[ast.Name(id=tg.id, ctx=ast.Store())],
+                                              value=ast.Name(id=new, ctx=ast.Load()))
+                            rest.append(ast.copy_location(back, rest[-1]))
+                        stmts[i + 1:] = rest
+            for l in lists_of(st):
+                process(l)
+            i += 1
+    process(fn.body)
+    ast.fix_missing_locations(fn)
+    return fn
+
+
 class FT:
     """Translator of one function."""
 
@@ -420,6 +715,10 @@ class FT:
         # outlives the Python statement that created it, so its number is reused afterwards.
         for nm in list(fi.params) + sorted(self.locals_ - set(fi.params)):
             self.var(nm)
+        self.simple = simple_locals(fi, self.locals_) if isinstance(fi.node, ast.FunctionDef) else set()
+        for nm in sorted(self.simple):
+            self.var(nm + "'")
+        self.last_elems = []
         self.maxvars = self.nvars
         self.evidence = {}
         for n in ast.walk(fi.node):
@@ -481,6 +780,8 @@ class FT:
                 s = (tag, self.mat(s[1]), s[2])
         elif tag == "store":
             s = (tag, s[1], self.mat(s[2]))
+        if tag in ("mutate", "cmutate", "call", "cached", "absorb"):
+            s = tuple(s) + (("line", self.curline),)     # trailing annotation, ignored by lean_stmt (diagnostics only)
         self.cur.append(tuple(s))
 
     def sub(self, fn):
@@ -513,6 +814,8 @@ class FT:
         return t, kind
 
     def viewof(self, refs, kind=K_UNK):
+        if kind == K_IMM:
+            return IMM, K_IMM               # an element known to be an immutable scalar has no roots
         if any(r == FRESHV for r in refs) and all(r in (IMM, FRESHV) for r in refs):
             return FRESHV, kind             # part of an unnamed fresh object
         refs = [r for r in refs if r not in (IMM, FRESHV)]
@@ -521,6 +824,68 @@ class FT:
         t = self.tmp()
         self.emit("view", t, refs)
         return t, kind
+
+    # ----------------------------------------- element variables (see simple_locals)
+    def is_simple(self, node):
+        return (isinstance(node, ast.Name) and node.id in self.simple
+                and not any(node.id in sc for sc in self.scopes))
+
+    def ev(self, name):
+        return self.var(name + "'")
+
+    def weak(self, E, v):
+        """E may from now on also stand for v"""
+        if v == IMM:
+            return
+        self.emit("ite", [("alias", E, self.mat(v))], [])
+
+    def set_elems(self, E, elems):
+        """E stands for exactly one of elems (no element: no roots)"""
+        elems = [e for e in elems if e != IMM]
+        if not elems:
+            self.emit("alias", E, IMM)
+        else:
+            self.emit("alias", E, self.choice(elems))
+
+    def elem_read(self, name):
+        k = self.name_kind(name)
+        ek = (kelem(k) or K_UNK) if kbase(k) in CONTAINER_BASES else K_UNK
+        if ek == K_IMM:
+            return IMM, K_IMM
+        t = self.tmp()
+        self.emit("alias", t, self.ev(name))
+        return t, ek
+
+    def elems_of(self, node, v):
+        """a variable standing for any element of the container `node` evaluates to (value variable v)"""
+        if self.is_simple(node):
+            return self.ev(node.id)
+        if isinstance(node, (ast.List, ast.Tuple)) and not any(isinstance(e, ast.Starred) for e in node.elts):
+            # (the display has just been evaluated: last_elems are its element variables)
+            els = [e for e in self.last_elems if e != IMM]
+            return self.choice(els) if els else IMM
+        return self.viewof([v])[0]
+
+    def bound_elems(self, name, node, v):
+        """X = <new container> (one of the forms of _new_container_form) for a simple X: set X'"""
+        E = self.ev(name)
+        if isinstance(node, (ast.Dict, ast.List, ast.ListComp, ast.DictComp)):
+            self.set_elems(E, list(self.last_elems))
+            return
+        src = None
+        if isinstance(node, ast.Call) and isinstance(node.func, ast.Name) and node.args:
+            src = node.args[0]
+        elif isinstance(node, ast.Call) and isinstance(node.func, ast.Attribute):
+            src = node.func.value
+        elif isinstance(node, ast.Subscript):
+            src = node.value
+        if src is None:
+            self.emit("alias", E, IMM)              # list() / dict()
+        elif self.is_simple(src):
+            self.emit("alias", E, self.ev(src.id))
+        else:
+            sv, _ = self.expr(src)
+            self.set_elems(E, [self.viewof([sv])[0]])
 
     def choice(self, alts):
         """value is exactly one of the variables in alts"""
@@ -565,8 +930,8 @@ class FT:
             if p[0] in AUREL_MODULE_NAMES and len(p) == 2 and p[0] not in self.locals_:
                 q = w.modfuncs[AUREL_MODULE_NAMES[p[0]]].get(p[1])
                 return {q} if q else None
-            if p[0] == "np" and len(p) >= 2:
-                return {"ext"}
+            if p[0] == "np" and len(p) >= 2 and ".".join(p[1:]) in NP_FRESH:
+                return {"ext"}          # a numpy function that allocates its result (called without out=)
             return None
         if isinstance(n, ast.Subscript) and isinstance(n.value, ast.Name) and n.value.id not in self.locals_:
             ft = w.functables.get((fi.module, n.value.id))
@@ -596,7 +961,7 @@ class FT:
         if nm in w.globals_[mod]:
             t = self.tmp()
             self.emit("glob", t, w.key("glob:%s.%s" % (mod, nm)))
-            return t, K_UNK
+            return t, w.global_kinds.get((mod, nm), K_UNK)
         if nm == "self":
             t = self.tmp()
             self.emit("glob", t, w.key("self:%s" % self.cls))
@@ -679,6 +1044,10 @@ class FT:
     def is_data_dict(self, n):
         return isinstance(n, ast.Attribute) and n.attr == "data" and self.is_core_obj(n.value)
 
+    def is_bookkeeping(self, n):
+        """`<AurelCore instance>.last_accessed` / `.var_importance` (assumption A4)"""
+        return isinstance(n, ast.Attribute) and n.attr in BOOKKEEPING_ATTRS and self.is_core_obj(n.value)
+
     def anykey(self):
         t = self.tmp()
         self.emit("call", t, "core.AurelCore.<anykey>", [])
@@ -714,10 +1083,17 @@ class FT:
         if fs:
             self.index(sl)
             return IMM, K_FUNC
+        if self.is_simple(n.value) and not isinstance(sl, ast.Slice):
+            self.index(sl)
+            return self.elem_read(n.value.id)           # one of the elements stored through this name
         v, k = self.expr(n.value)
         self.index(sl)
         if v == IMM:
             return IMM, K_IMM
+        if (isinstance(n.value, ast.Name) and n.value.id == self.fi.kwarg and isinstance(sl, ast.Constant)
+                and getattr(self.fi, "kwdoc", {}).get(sl.value) is not None
+                and not self.kwarg_entry_overwritten(sl.value, n)):
+            return self.viewof([v], self.fi.kwdoc[sl.value])       # kwargs['name']: documented type (A1)
         if k in (K_ARR, "arr?"):
             return self.viewof([v], K_ARR)
         if kbase(k) in CONTAINER_BASES and not isinstance(sl, ast.Slice):
@@ -725,6 +1101,24 @@ class FT:
         if kbase(k) in CONTAINER_BASES:
             return self.viewof([v], k)
         return self.viewof([v])
+
+    def kwarg_entry_overwritten(self, name, at):
+        """the function itself assigns kwargs['name'] = ... at or before the read `at`, or in a loop around it
+        (then the documented type of the caller's entry says nothing about what the read returns)"""
+        stores = [n.lineno for n in ast.walk(self.fi.node)
+                  if (isinstance(n, ast.Subscript) and isinstance(n.ctx, ast.Store) and isinstance(n.value, ast.Name)
+                      and n.value.id == self.fi.kwarg and isinstance(n.slice, ast.Constant) and n.slice.value == name)]
+        if any(isinstance(n, ast.Call) and isinstance(n.func, ast.Attribute) and isinstance(n.func.value, ast.Name)
+               and n.func.value.id == self.fi.kwarg and n.func.attr in ("update", "setdefault", "pop", "clear", "popitem")
+               for n in ast.walk(self.fi.node)):
+            return True
+        if not stores:
+            return False
+        first, line = min(stores), getattr(at, "lineno", 10 ** 9)
+        if line >= first:
+            return True
+        return any(isinstance(n, (ast.For, ast.While)) and n.lineno <= line and n.end_lineno >= first
+                   for n in ast.walk(self.fi.node))
 
     # ------------------------------------------------------------- exprs
     def expr(self, n):
@@ -806,7 +1200,9 @@ class FT:
                     v1, k1 = self.expr(e)
                     refs.append(v1)
                     ek = kjoin(ek, k1)
-            return self.fresh(refs, kmk(K_LIST if t is ast.List else K_TUPLE, ek))
+            v = self.fresh(refs, kmk(K_LIST if t is ast.List else K_TUPLE, ek))
+            self.last_elems = list(refs)
+            return v
         if t is ast.Set:
             for e in n.elts:
                 self.expr(e)
@@ -823,7 +1219,9 @@ class FT:
                     v1, k1 = self.expr(v)
                     refs.append(v1)
                     ek = kjoin(ek, k1)
-            return self.fresh(refs, kmk(K_DICT, ek))
+            v = self.fresh(refs, kmk(K_DICT, ek))
+            self.last_elems = list(refs)
+            return v
         if t in (ast.ListComp, ast.GeneratorExp, ast.SetComp, ast.DictComp):
             return self.comprehension(n)
         if t is ast.Lambda:
@@ -848,6 +1246,8 @@ class FT:
         acc = self.tmp()
         kind = {ast.ListComp: K_LIST, ast.GeneratorExp: K_LIST, ast.SetComp: K_SET, ast.DictComp: K_DICT}[type(n)]
         self.emit("join", acc, [])
+        anyel = self.tmp()                  # stands for any element of the result (see simple_locals)
+        self.emit("alias", anyel, IMM)
         self.scopes.append({})
         ekind = [None]
 
@@ -861,6 +1261,7 @@ class FT:
                 ekind[0] = kjoin(ekind[0], ke)
                 if e != IMM and not isinstance(n, ast.SetComp):
                     self.emit("join", acc, [acc, e])
+                    self.weak(anyel, e)
                 return
             g = n.generators[i]
             spec = self.iter_value(g.iter)
@@ -878,6 +1279,7 @@ class FT:
             self.emit("loop", b)
         gen(0)
         self.scopes.pop()
+        self.last_elems = [anyel]
         return acc, (kind if kind == K_SET else kmk(kind, ekind[0]))
 
     # ----------------------------------------------------------- looping
@@ -898,6 +1300,24 @@ class FT:
                 for kw in it.keywords:
                     self.expr(kw.value)
                 return self.iter_value(it.args[0])
+        if (isinstance(it, ast.Call) and isinstance(it.func, ast.Attribute) and not it.args
+                and it.func.attr in ("items", "values") and self.is_simple(it.func.value)):
+            k = self.name_kind(it.func.value.id)
+            ek = (kelem(k) or K_UNK) if kbase(k) == K_DICT else K_UNK
+            if ek == K_IMM:
+                return ("imm",)
+            return ("items_exact" if it.func.attr == "items" else "exact", self.ev(it.func.value.id), ek)
+        base = it.value if (isinstance(it, ast.Subscript) and isinstance(it.slice, ast.Slice)) else it
+        if self.is_simple(base):
+            if base is not it:
+                self.index(it.slice)
+            k = self.name_kind(base.id)
+            if kbase(k) in (K_DICT, K_SET):
+                return ("imm",)
+            ek = (kelem(k) or K_UNK) if kbase(k) in CONTAINER_BASES else K_UNK
+            if ek == K_IMM:
+                return ("imm",)
+            return ("exact", self.ev(base.id), ek)
         if (isinstance(it, ast.Call) and isinstance(it.func, ast.Attribute) and not it.args
                 and it.func.attr in ("items", "keys", "values")):
             v, k = self.expr(it.func.value)
@@ -935,6 +1355,18 @@ class FT:
             tag = sp[0]
             if tag == "imm":
                 bind(t, IMM, K_IMM)
+            elif tag == "exact":
+                x = self.tmp()
+                self.emit("alias", x, sp[1])
+                bind(t, x, sp[2])
+            elif tag == "items_exact":
+                x = self.tmp()
+                self.emit("alias", x, sp[1])
+                if isinstance(t, (ast.Tuple, ast.List)) and len(t.elts) == 2:
+                    bind(t.elts[0], IMM, K_IMM)
+                    bind(t.elts[1], x, sp[2])
+                else:
+                    bind(t, x, K_UNK)
             elif tag == "elems":
                 ev, ek = self.viewof([sp[1]], sp[2])
                 bind(t, ev, ek, sp[3])
@@ -960,7 +1392,10 @@ class FT:
                     flat, roots = [], []
 
                     def leaves(q):
-                        if q[0] in ("elems", "items"):
+                        if q[0] in ("exact", "items_exact"):
+                            flat.append(q[1])
+                            roots.append(None)
+                        elif q[0] in ("elems", "items"):
                             flat.append(q[1])
                             roots.append(q[3])
                         elif q[0] == "enumerate":
@@ -1145,19 +1580,56 @@ class FT:
             if p and p[0] not in self.locals_ and not any(p[0] in sc for sc in self.scopes):
                 if p[0] == "np":
                     name = ".".join(p[1:])
+                    isv = einsum_is_view(n) if name == "einsum" else None
+                    pos, star, kws, spreads = self.eval_args(n)
+                    const = lambda kw, val: any(k.arg == kw and isinstance(k.value, ast.Constant)
+                                                and k.value.value is val for k in n.keywords)
+                    if name not in NP_FRESH | NP_VIEW0 | NP_MUT0 | {"einsum"}:
+                        self.err(n, "unclassified numpy function np.%s" % name)
+                    if spreads:
+                        self.err(n, "np.%s(**kwargs): keyword arguments (out=, overwrite_input=, copy=) not visible" % name)
+                    # -- arrays the call writes into
+                    outs = []
+                    if "out" in kws and not const("out", None):
+                        kwn = next(k.value for k in n.keywords if k.arg == "out")
+                        if isinstance(kwn, (ast.Tuple, ast.List)):
+                            outs += [self.expr(e)[0] for e in kwn.elts]
+                        else:
+                            outs.append(kws["out"][0])
+                    out_given = bool(outs)
+                    oi = np_param_index(name, "out")
+                    if oi == -1 and name not in NP_VIEW0 | NP_MUT0 | {"einsum"} and len(pos) > 1:
+                        self.err(n, "np.%s: signature cannot be inspected (positional out?)" % name)
+                    if oi is not None and oi >= 0 and (len(pos) > oi or (star and name != "einsum")):
+                        if star:
+                            self.err(n, "np.%s(*args): a positional `out` array cannot be excluded" % name)
+                        outs += [v for v, _ in pos[oi:oi + 1]]
+                        out_given = True
+                    for kw in NP_INPLACE_KW:
+                        ii = np_param_index(name, kw)
+                        given = (kw in kws and not const(kw, False)) or (ii is not None and ii >= 0 and len(pos) > ii)
+                        if given:
+                            if not pos:
+                                self.err(n, "np.%s(%s=...) without positional input" % (name, kw))
+                            outs.append(pos[0][0])      # the input may be partitioned / sorted in place
+                    if name in NP_MUT0:
+                        if not pos:
+                            self.err(n, "np.%s without positional argument" % name)
+                        self.emit("mutate", pos[0][0])
+                        return IMM, K_IMM
+                    for o in outs:
+                        self.emit("mutate", o)
+                    if out_given:
+                        return self.viewof(outs, K_ARR) if len(outs) > 1 else (outs[0], K_ARR)   # returns its `out`
+                    if "copy" in kws and not const("copy", True):
+                        # np.array(x, copy=False), np.meshgrid(..., copy=False) ...: the result may share memory
+                        return self.viewof(self.all_arg_vars(pos, star, kws, spreads), K_ARR)
                     if name == "einsum":
-                        isv = einsum_is_view(n)
-                        pos, star, kws, spreads = self.eval_args(n)
                         if isv is True:
                             return pos[1][0], K_ARR
                         if isv is False:
                             return self.fresh([], K_ARR)
                         return self.viewof(self.all_arg_vars(pos, star, kws, spreads), K_ARR)
-                    pos, star, kws, spreads = self.eval_args(n)
-                    if "out" in kws or "where" in kws:
-                        self.err(n, "numpy call with out= / where= writes into an existing array: not classified")
-                    if name == "array" and "copy" in kws:
-                        return self.viewof([v for v, _ in pos], K_ARR)      # np.array(x, copy=False) may alias x
                     if name in NP_FRESH:
                         return self.fresh([], K_ARR)
                     if name in NP_VIEW0:
@@ -1184,6 +1656,14 @@ class FT:
                     fs = self.funcs_of(f)
                     if fs:
                         return self.emit_calls(n, fs, *self.eval_args(n))
+            # ---- unbound method of a builtin type: list.sort(x) is x.sort()
+            if (p and len(p) == 2 and p[0] in ("list", "dict", "set", "tuple", "str") and p[0] not in self.locals_
+                    and p[1] != "fromkeys" and n.args and not isinstance(n.args[0], ast.Starred)):
+                bound = ast.Call(func=ast.Attribute(value=n.args[0], attr=p[1], ctx=ast.Load()),
+                                 args=n.args[1:], keywords=n.keywords)
+                ast.copy_location(bound, n)
+                ast.fix_missing_locations(bound)
+                return self.call(bound)
             # ---- method call on a value
             m = f.attr
             rv, rk = self.expr(f.value)
@@ -1192,6 +1672,16 @@ class FT:
                 return self.emit_calls(n, {"%s.%s" % (cls, m)}, *self.eval_args(n))
             pos, star, kws, spreads = self.eval_args(n)
             args = self.all_arg_vars(pos, star, kws, spreads)
+            if rv != IMM and m in (M_FRESH | M_COPY | M_ALIAS) and kbase(rk) not in (K_LIST, K_DICT, K_SET, K_TUPLE):
+                # ndarray methods that accept an output array
+                if "out" in kws and not (isinstance(next(k.value for k in n.keywords if k.arg == "out"), ast.Constant)):
+                    self.emit("mutate", kws["out"][0])
+                    return kws["out"][0], K_ARR
+                if spreads or (star and m in ARRAY_METHOD_MAXPOS):
+                    self.err(n, ".%s(*args / **kwargs): an `out` array cannot be excluded" % m)
+                if m in ARRAY_METHOD_MAXPOS and len(pos) > ARRAY_METHOD_MAXPOS[m]:
+                    self.err(n, ".%s() with %d positional arguments: positional `out` / `copy` not classified"
+                             % (m, len(pos)))
             if m in M_MUT_CONT_ABSORB:
                 if rv == IMM:
                     return IMM, K_IMM
@@ -1199,8 +1689,10 @@ class FT:
                 stored = pos[1:] if m in ("setdefault", "insert") else pos      # the key / position is not stored
                 sv = [v1 for v1, _ in stored] + star + [v1 for v1, _ in kws.values()] + spreads
                 if m != "add":
+                    norefs = m in ("extend", "update") and not star and not kws and not spreads and all(
+                        holds_no_refs(k1) for _, k1 in stored)
                     for a in sv:
-                        if a != IMM:
+                        if a != IMM and not norefs:
                             self.emit("absorb", rv, a)
                     sk = None
                     for _, k1 in stored:
@@ -1210,6 +1702,19 @@ class FT:
                     elif star or kws or spreads:
                         sk = K_UNK
                     self.note_store(f.value, sk)
+                    if self.is_simple(f.value):
+                        E = self.ev(f.value.id)
+                        if m in ("extend", "update"):
+                            for node, (v1, _) in zip(n.args, pos):
+                                self.weak(E, self.elems_of(node, v1) if not isinstance(node, (ast.List, ast.Tuple))
+                                          else self.viewof([v1])[0])
+                            for a in star + [v1 for v1, _ in kws.values()] + spreads:
+                                self.weak(E, a)
+                        else:
+                            for a in sv:
+                                self.weak(E, a)
+                        if m == "setdefault":
+                            return self.elem_read(f.value.id)
                 if m == "setdefault":
                     ek = (kelem(rk) or None) if kbase(rk) == K_DICT else K_UNK
                     return self.viewof([rv] + sv, kjoin(ek, stored[0][1] if stored else None) or K_UNK)
@@ -1218,6 +1723,8 @@ class FT:
                 if rv != IMM:
                     self.emit("cmutate", rv)
                     self.stored_through.add(root_name(f.value) or "")
+                if self.is_simple(f.value) and m in ("pop", "popitem"):
+                    return self.elem_read(f.value.id)
                 return self.viewof([rv], (kelem(rk) or K_UNK) if kbase(rk) in (K_LIST, K_DICT) and m == "pop" else K_UNK)
             if m in M_MUT_ARRAY:
                 if rv != IMM:
@@ -1246,9 +1753,24 @@ class FT:
                 return rv, rk
             if m == "keys":
                 return self.fresh([], K_LIST)
+            if m == "get" and self.is_simple(f.value):
+                e1, k1 = self.elem_read(f.value.id)
+                if len(pos) > 1 and pos[1][0] != IMM:
+                    return self.choice([e1, pos[1][0]]), kjoin(k1, pos[1][1]) or K_UNK
+                return e1, k1
             if m == "get":
                 ek = (kelem(rk) or None) if kbase(rk) == K_DICT else K_UNK
                 dk = pos[1][1] if len(pos) > 1 else None
+                if (isinstance(f.value, ast.Name) and f.value.id == self.fi.kwarg and n.args
+                        and isinstance(n.args[0], ast.Constant)):
+                    # kwargs.get('name', default): documented type of the entry (A1)
+                    doc = getattr(self.fi, "kwdoc", {}).get(n.args[0].value)
+                    if doc is not None and self.kwarg_entry_overwritten(n.args[0].value, n):
+                        doc = None
+                    if doc == K_IMM and (len(pos) < 2 or pos[1][0] == IMM):
+                        return IMM, K_IMM
+                    if doc is not None and doc != K_IMM:
+                        ek = doc
                 if len(pos) > 1 and pos[1][0] != IMM:
                     return self.choice([self.viewof([rv], K_UNK)[0], pos[1][0]]), kjoin(ek, dk) or K_UNK
                 return self.viewof([rv], kjoin(ek, dk) or K_UNK)
@@ -1337,6 +1859,12 @@ class FT:
             self.expr(sl)
             self.emit("store", self.w.key(key), v)
             return
+        if self.is_bookkeeping(tgt.value):
+            self.index(tgt.slice)
+            if v != IMM:
+                self.err(tgt, "A4: a value that is not an immutable scalar is stored in the bookkeeping dict .%s"
+                         % tgt.value.attr)
+            return                          # cache bookkeeping (A4): not an operation on a heap object of the model
         b, kb = self.expr(tgt.value)
         self.index(tgt.slice)
         if b == IMM:
@@ -1353,6 +1881,11 @@ class FT:
             if v != IMM:
                 self.emit("absorb", b, v)
             self.note_store(tgt.value, k)
+        if self.is_simple(tgt.value) and not (kb in (K_ARR, "arr?")):
+            if isinstance(tgt.slice, ast.Slice):
+                self.weak(self.ev(tgt.value.id), self.viewof([v])[0])      # X[a:b] = elements of v
+            else:
+                self.weak(self.ev(tgt.value.id), v)
 
     def aug_assign(self, s):
         v, kv = self.expr(s.value)
@@ -1362,6 +1895,8 @@ class FT:
             if t.id not in self.locals_:
                 self.err(s, "augmented assignment to a global")
             x = self.var(t.id)
+            if self.is_simple(t) and kbase(k) not in (K_LIST, K_SET, K_DICT):
+                k = K_LIST                  # every binding of a simple name is a new list / dict; dict += is an error
             if k == K_IMM:
                 # number / string: rebinding, not mutation; the new value may be an array
                 # number (op)= unknown: a number or an array (number + list raises)
@@ -1384,8 +1919,10 @@ class FT:
                 self.note_kind(t.id, kjoin(k, kv) if kbase(kv) == kbase(k) else kbase(k))
                 self.stored_through.add(t.id)
                 self.emit("cmutate", x)
-                if v != IMM:
+                if v != IMM and not holds_no_refs(kv):
                     self.emit("absorb", x, v)
+                if self.is_simple(t) and v != IMM and not holds_no_refs(kv):
+                    self.weak(self.ev(t.id), self.elems_of(s.value, v))
                 return
             # (an augmented assignment does not change what kind of object the name holds)
             self.stored_through.add(t.id)
@@ -1398,6 +1935,11 @@ class FT:
         if isinstance(t, ast.Subscript):
             if self.is_data_dict(t.value):
                 self.err(s, "augmented assignment on a cache entry")
+            if self.is_bookkeeping(t.value):
+                self.index(t.slice)
+                if v != IMM:
+                    self.err(s, "A4: augmented assignment of a non-scalar in the bookkeeping dict .%s" % t.value.attr)
+                return
             b, kb = self.expr(t.value)
             self.index(t.slice)
             if b == IMM:
@@ -1410,7 +1952,11 @@ class FT:
             if key in EXPR_KINDS:
                 self.used_expr_kinds.add(key)
                 ek = EXPR_KINDS[key][0]
-            e, _ = self.viewof([b])
+            if self.is_simple(t.value):
+                e = self.tmp()
+                self.emit("alias", e, self.ev(t.value.id))
+            else:
+                e, _ = self.viewof([b])
             # the element, if it is mutable, is updated in place ...
             if kbase(ek) in (K_LIST, K_SET, K_DICT):
                 self.emit("cmutate", e)
@@ -1418,9 +1964,13 @@ class FT:
                 self.emit("mutate", e)
             # ... and stored back
             self.emit("cmutate" if self.container_kind(t.value, kb) else "mutate", b)
-            if v != IMM:
+            if v != IMM and not (holds_no_refs(kv) and kbase(ek) in (K_LIST, K_SET, K_DICT)):
                 self.emit("absorb", b, v)
                 self.emit("absorb", e, v)
+            if self.is_simple(t.value) and kbase(ek) not in (K_LIST, K_SET, K_DICT) and ek not in (K_ARR, K_IMM):
+                # an element that is not known to be updated in place may be replaced by a new object (tuple + tuple)
+                nv, _ = self.fresh([e, v], K_UNK)
+                self.weak(self.ev(t.value.id), nv)
             # the element keeps its base type (list stays list, array stays array; a number may become an array)
             rn = root_name(t.value)
             if rn:
@@ -1469,6 +2019,8 @@ class FT:
                     self.assign_to(tg, v, k, e)
                 return False
             v, k = self.expr(s.value)
+            if len(s.targets) == 1 and self.is_simple(s.targets[0]):
+                self.bound_elems(s.targets[0].id, s.value, v)
             for tg in s.targets:
                 self.assign_to(tg, v, k, s.value)
             return False
@@ -1546,6 +2098,8 @@ class FT:
             for tg in s.targets:
                 if isinstance(tg, ast.Name):
                     self.emit("alias", self.var(tg.id), IMM)
+                elif isinstance(tg, ast.Subscript) and (self.is_data_dict(tg.value) or self.is_bookkeeping(tg.value)):
+                    self.index(tg.slice)        # eviction of a cache entry / of its bookkeeping record (A4)
                 elif isinstance(tg, ast.Subscript):
                     b, kb = self.expr(tg.value)
                     self.index(tg.slice)
@@ -1607,19 +2161,39 @@ def docstring_kinds(fi):
     import re
     doc = ast.get_docstring(fi.node) if isinstance(fi.node, ast.FunctionDef) else None
     out = {}
+    fi.kwdoc = {}
     if not doc:
         return out
+    # entries of **kwargs the function reads by a constant name: kwargs.get('name', ...) / kwargs['name']
+    kwnames = set()
+    if fi.kwarg:
+        for n in ast.walk(fi.node):
+            if (isinstance(n, ast.Call) and isinstance(n.func, ast.Attribute) and n.func.attr == "get"
+                    and isinstance(n.func.value, ast.Name) and n.func.value.id == fi.kwarg and n.args
+                    and isinstance(n.args[0], ast.Constant) and isinstance(n.args[0].value, str)):
+                kwnames.add(n.args[0].value)
+            if (isinstance(n, ast.Subscript) and isinstance(n.value, ast.Name) and n.value.id == fi.kwarg
+                    and isinstance(n.slice, ast.Constant) and isinstance(n.slice.value, str)
+                    and isinstance(n.ctx, ast.Load)):
+                kwnames.add(n.slice.value)
     for line in doc.split("\n"):
         m = re.match(r"^\s*(\w+)\s*:\s*(.+?)\s*$", line)
-        if not m or m.group(1) not in fi.params:
+        if not m or (m.group(1) not in fi.params and m.group(1) not in kwnames):
             continue
         ty = m.group(2).lower()
+        k = None
         if re.match(r"^(str|string|int|float|bool)\b", ty) and " or " not in ty:
-            out[m.group(1)] = K_IMM
+            k = K_IMM
         elif re.match(r"^dict\b", ty) and " or " not in ty:
-            out[m.group(1)] = K_DICT
+            k = K_DICT
         elif re.match(r"^list\b", ty) and " or " not in ty:
-            out[m.group(1)] = kmk(K_LIST, K_IMM) if re.match(r"^list of (str|int|float)", ty) else K_LIST
+            k = kmk(K_LIST, K_IMM) if re.match(r"^list of (str|int|float)", ty) else K_LIST
+        if k is None:
+            continue
+        if m.group(1) in fi.params:
+            out[m.group(1)] = k
+        else:
+            fi.kwdoc[m.group(1)] = k         # documented type of the keyword entry (assumption A1)
     for (q, p), (k, _) in PARAM_KINDS.items():
         if q == fi.qname:
             if p not in fi.params:
@@ -1666,6 +2240,7 @@ def translate_function(w, fi):
             fi.kinds = kinds
             fi.retkind_new = ft.retkind
             fi.varnames = dict(ft.vars)
+            fi.simple = set(ft.simple)
             return ir
         kinds, lfuncs = new, ft.newlfuncs
     raise TranslationError("%s: name kinds do not stabilise" % fi.qname)
@@ -1752,6 +2327,54 @@ def prepass_fparams(w):
     return changed
 
 
+def check_bookkeeping(w):
+    """side conditions of assumption A4 (see BOOKKEEPING_ATTRS); raises TranslationError when one fails"""
+    created = set()
+    for mod, rel in MODULES:
+        tree = ast.parse(fw.src_text(rel))
+        parent = {}
+        for n in ast.walk(tree):
+            for c in ast.iter_child_nodes(n):
+                parent[c] = n
+        for n in ast.walk(tree):
+            if isinstance(n, ast.Call) and isinstance(n.func, ast.Name) and n.func.id in ("setattr", "delattr", "vars"):
+                fn = n
+                while fn in parent and not isinstance(fn, ast.FunctionDef):
+                    fn = parent[fn]
+                if not (isinstance(fn, ast.FunctionDef) and fn.name == "__init__" and mod == "core"):
+                    raise TranslationError("A4: %s() outside AurelCore.__init__ (%s:%d)" % (n.func.id, rel, n.lineno))
+            if not (isinstance(n, ast.Attribute) and n.attr in BOOKKEEPING_ATTRS):
+                continue
+            where = "%s:%d `%s`" % (rel, n.lineno, ast.unparse(parent.get(n, n)))
+            par = parent.get(n)
+            if isinstance(par, ast.Subscript) and par.value is n:
+                continue                                   # x.attr[k]  (load / store / del; stored value checked at translation)
+            if (isinstance(par, ast.Attribute) and par.value is n and par.attr in BOOKKEEPING_READ_METHODS
+                    and isinstance(parent.get(par), ast.Call) and parent[par].func is par):
+                continue                                   # x.attr.get(...) / .items() / .keys() / .values()
+            if (isinstance(par, ast.Compare) and n in par.comparators
+                    and all(isinstance(o, (ast.In, ast.NotIn)) for o in par.ops)):
+                continue                                   # k in x.attr
+            if isinstance(par, ast.Assign) and par.targets == [n] and isinstance(n.ctx, ast.Store):
+                fn = parent.get(par)
+                v = par.value
+                fresh = (isinstance(v, ast.Dict) and not v.keys) or (
+                    isinstance(v, ast.Call) and dotted(v.func) == ["dict", "fromkeys"] and len(v.args) == 2
+                    and isinstance(v.args[1], ast.Constant) and not isinstance(v.args[1].value, (list, dict)))
+                if (isinstance(fn, ast.FunctionDef) and fn.name == "__init__" and mod == "core" and fresh
+                        and dotted(n) == ["self", n.attr]):
+                    # created unconditionally, after every setattr(self, ...) of user keyword attributes
+                    later = [c for c in ast.walk(fn) if isinstance(c, ast.Call) and isinstance(c.func, ast.Name)
+                             and c.func.id == "setattr" and c.lineno > par.lineno]
+                    if not later:
+                        created.add(n.attr)
+                        continue
+            raise TranslationError("A4: bookkeeping dict used in a way that may let it escape or alias: " + where)
+    missing = set(BOOKKEEPING_ATTRS) - created
+    if missing:
+        raise TranslationError("A4: AurelCore.__init__ does not create %s as a new dict" % sorted(missing))
+
+
 def is_public(fi):
     name = fi.qname.split(".")[-1]
     return not name.startswith("_") or name == "__init__"
@@ -1759,6 +2382,7 @@ def is_public(fi):
 
 def build():
     w = load_world()
+    check_bookkeeping(w)
     for fi in w.funcs.values():
         fi.retkind = None
     for _ in range(6):
@@ -1869,10 +2493,10 @@ def generate():
     flags = {}
     for q in order:
         fi = w.funcs[q]
-        reading = fi.module == "reading"
+        claims = fi.module in CONTAINER_CLAIM_MODULES
         pub = is_public(fi) and q != ANYKEY
-        cpub = reading and pub and q not in CPUB_EXEMPT and q not in NONSTRICT
-        strict = reading and q not in NONSTRICT
+        cpub = claims and pub and q not in CPUB_EXEMPT and q not in NONSTRICT
+        strict = claims and q not in NONSTRICT
         flags[q] = (pub, cpub, strict)
     out = ["-- GENERATED by tools/py2lean/aliasir.py from src/aurel/{core,maths,finitedifference,numerical,time,reading}.py",
            "-- do not edit.  One alias-IR body per function; see Model/Heap.lean for the statements.",
@@ -1899,6 +2523,12 @@ def generate():
     out.append("def program : Program := ⟨fns, keys⟩")
     out.append("")
     out.append("def fnNames : List String := [%s]" % ", ".join('"%s"' % q for q in order))
+    out.append("")
+    out.append("/-! indices of the functions Props/C02Containers.lean names -/")
+    for q in NAMED_FUNCTIONS:
+        if q not in fid:
+            raise TranslationError("NAMED_FUNCTIONS: %s is not a function of the source" % q)
+        out.append("def fid_%s : FnId := %d" % (q.replace(".", "_"), fid[q]))
     out.append("def keyNames : List String := [%s]" % ", ".join('"%s"' % k for k in w.key_names))
     out.append("")
     out.append("end AurelVerif.Gen.AliasIR")
@@ -1910,7 +2540,13 @@ def generate():
             "lines": {q: (w.funcs[q].module, w.funcs[q].lineno) for q in order},
             "fparams": {q: {k: sorted(v) for k, v in w.funcs[q].fparams.items() if v} for q in order
                         if any(w.funcs[q].fparams.values())},
-            "exempt": {"cpub": CPUB_EXEMPT, "nonstrict": NONSTRICT, "skipped": SKIP_FUNCS}}
+            "exempt": {"cpub": CPUB_EXEMPT, "nonstrict": NONSTRICT, "skipped": SKIP_FUNCS,
+                       "bookkeeping(A4)": BOOKKEEPING_ATTRS},
+            "named": {q: fid[q] for q in NAMED_FUNCTIONS},
+            "simple_locals": {q: sorted(getattr(w.funcs[q], "simple", ())) for q in order
+                              if getattr(w.funcs[q], "simple", None)},
+            # for diagnostics only (tools/py2lean/aliasdiag.py): the IR as Python tuples
+            "diag": {"irs": irs, "keyfn_name": {w.keys[k]: q for k, q in keyfns.items()}}}
     return "\n".join(out) + "\n", info
 
 
